@@ -39,9 +39,22 @@ def jsonable(x):
     return str(x)
 
 
-def run_scenario(prog, fn, P, tier, max_paths, budget):
+FOREIGN = []
+
+
+def run_scenario(prog, fn, P, tier, max_paths, budget, attribute_all=False):
     def path(ex):
-        fn(prog, ex, P, tier)
+        try:
+            fn(prog, ex, P, tier)
+        except Violation as v:
+            if v.prop == P:
+                raise
+            if attribute_all:
+                # this group states that any monitor firing in the scenario is a failure of P
+                raise Violation(P, "[%s monitor] %s" % (v.prop, v.msg), v.detail)
+            # a monitor of another property fired in a shared scenario: that is the other
+            # property's alarm; this path is complete as far as P is concerned
+            ex.event(ev="foreign_monitor", prop=v.prop, msg=v.msg[:160])
     workers = int(os.environ.get("VERIF_WORKERS", "14"))
     if workers <= 1:
         return explore.explore(path, max_paths=max_paths, time_budget=budget)
@@ -64,7 +77,7 @@ def run_group(pid, grp, tier, out, repo, work):
         maxp = sc.get("max_paths", {"quick": 30000, "thorough": 400000})[tier] if isinstance(sc.get("max_paths"), dict) else sc.get("max_paths", 30000 if tier == "quick" else 400000)
         budget = sc.get("budget", 240 if tier == "quick" else 1800)
         try:
-            viol, unsup, st = run_scenario(prog, fn, pid, tier, maxp, budget)
+            viol, unsup, st = run_scenario(prog, fn, pid, tier, maxp, budget, attribute_all=grp.get("attribute_all", False) or sc.get("attribute_all", False))
         except Exception as e:      # an interpreter bug is never a verdict
             out.inconclusive.append("%s: interpreter error %r\n%s" % (name, e, traceback.format_exc()[-600:]))
             ob["status"] = "inconclusive"
@@ -89,11 +102,7 @@ def run_group(pid, grp, tier, out, repo, work):
             ok, msg = replay(prog, fn, v, tier)
             ob["status"] = "violated" if ok else "inconclusive"
             ob["replayed"] = ok
-            if v.prop != pid:
-                # a monitor of another property fired inside a shared scenario: not this property's alarm
-                out.notes.append({"engine": "mir", "note": "scenario %s: monitor of %s fired (%s); not attributed to %s" % (sc["fn"], v.prop, v.msg, pid)})
-                ob["status"] = "discharged"
-            elif ok:
+            if ok:
                 out.violations.append({"name": name, "replay": rp, "failed_checks": [v.msg], "detail": v.msg})
             else:
                 out.inconclusive.append("%s: counterexample did not reproduce on replay (%s)" % (name, msg))
@@ -132,7 +141,7 @@ def replay(prog, fn, v, tier):
     try:
         fn(prog, ex, v.prop, tier)
     except Violation as v2:
-        return (v2.msg == v.msg or v2.prop == v.prop), v2.msg
+        return (v2.msg == v.msg or v2.prop == v.prop or v2.msg in v.msg), v2.msg
     except Exception as e:
         return False, "replay raised %r" % (e,)
     return False, "replay ran to the end without a violation"
